@@ -11,6 +11,9 @@ stack pointer and to the x87 register stack.
   table cannot account for (`sub %rdi, %rsp` of alloca, `mov %rbp, %rsp`), has *no* effect value:
   every consumer fails loudly on it.
 * `delta` — the effect of straight-line code (no labels, no jumps): the sum of the line effects.
+  A `cast_table` line (several instructions, possibly with forward jumps to local labels inside the
+  line) has an effect iff all paths through it (`cellPaths`) have the same effect; `multiWhy` names
+  two paths that disagree.
 * `checkFn` — whole-function check over code with labels and jumps: there is one height per label
   such that every jump to a label and the fall-through into it arrive at that height (so no loop,
   branch, break, continue or goto can accumulate residue), heights never go below the function's
@@ -46,11 +49,13 @@ def dstIsRsp (a : List Opd) : Bool :=
   | some o => isRsp o
   | none => false
 
-def x87Push : List String := ["fldt", "flds", "fldl", "fildl", "fildll", "fildq", "fldz"]
+def x87Push : List String := ["fldt", "flds", "fldl", "fildl", "fildll", "fildq", "fldz", "fld", "fld1"]
 def x87Pop : List String :=
   ["fstpt", "fstps", "fstpl", "fistps", "fistpl", "fistpq", "faddp", "fsubrp", "fmulp", "fdivrp",
    "fcomip", "fucomip", "fstp"]
-def x87Same : List String := ["fchs", "fldcw", "fnstcw", "fadds"]
+def x87Same : List String :=
+  ["fchs", "fldcw", "fnstcw", "fadds", "fabs", "fxch", "fcomi", "fucomi", "fadd", "fsub", "fsubr", "fmul", "fdiv",
+   "fdivr", "fst", "fsts", "fstl", "faddl", "fsubs", "fsubl", "fmuls", "fmull", "fdivs", "fdivl", "fnstsw", "fwait"]
 
 /-- every other mnemonic the code generator prints; none of them touches %rsp unless %rsp is its
     destination operand, none touches the x87 stack -/
@@ -64,7 +69,8 @@ def plainOps : List String :=
    "cvttsd2sil", "cvttsd2siq", "cvtss2sd", "cvtsd2ss", "inc", "dec", "xchg", "lock cmpxchg",
    "rep stosb", "data16 lea", "rex64", "addq", "call"]
 
-def jumpOps : List String := ["jmp", "je", "jne", "jbe", "js", "jns"]
+def jumpOps : List String :=
+  ["jmp", "je", "jne", "jbe", "js", "jns", "ja", "jae", "jb", "jl", "jle", "jg", "jge", "jp", "jnp", "jz", "jnz"]
 
 /-- effect of one straight-line instruction; `none` = not straight-line, or unknown -/
 def insDelta (i : Ins) : Option H :=
@@ -84,24 +90,72 @@ def insDelta (i : Ins) : Option H :=
     spelling: `String.endsWith` does not reduce under `decide`) -/
 def isLocalLabel (i : Ins) : Bool := i.op.toList.getLast? == some ':' && i.a.isEmpty
 
-/-- a `cast_table` line: several instructions, possibly with forward jumps to local labels inside the
-    line.  Its effect is the sum of the instruction effects provided every instruction that has an
-    effect comes before the first jump (so it is executed on every path through the line). -/
-def multiDelta : List Ins → Bool → Option H
-  | [], _ => some H.zero
-  | i :: r, jumped =>
-    if isLocalLabel i then multiDelta r jumped
-    else if jumpOps.contains i.op then multiDelta r true
-    else match insDelta i, multiDelta r jumped with
-      | some d, some e => if jumped && d != H.zero then none else some (d + e)
-      | _, _ => none
+/-- the local label a jump inside a multi-instruction line goes to: `1f` ↦ `1:` -/
+def fwdLabel (i : Ins) : Option String :=
+  match i.a with
+  | [.s t] =>
+    match t.toList with
+    | [d, 'f'] => if d.isDigit then some (String.ofList [d, ':']) else none
+    | _ => none
+  | _ => none
+
+/-- the instructions after the next definition of local label `l` -/
+def afterLabel (l : String) : List Ins → Option (List Ins)
+  | [] => none
+  | i :: r => if i.op == l && i.a.isEmpty then some r else afterLabel l r
+
+/-- All paths through a `cast_table` line (several instructions, forward jumps to local labels
+    inside the line): for each path the instructions executed, in order, and their total effect.
+    `none`: an instruction without a known effect, or a jump that is not a forward jump to a local
+    label of the line.  `fuel` ≥ length + 1 (every step continues on a proper suffix). -/
+def cellPaths : Nat → List Ins → List Ins → H → Option (List (List Ins × H))
+  | 0, _, _, _ => none
+  | _ + 1, [], acc, h => some [(acc.reverse, h)]
+  | fuel + 1, i :: r, acc, h =>
+    if isLocalLabel i then cellPaths fuel r acc h
+    else if jumpOps.contains i.op then
+      match fwdLabel i with
+      | none => none
+      | some l =>
+        match afterLabel l r with
+        | none => none
+        | some tgt =>
+          match cellPaths fuel tgt (i :: acc) h with
+          | none => none
+          | some taken =>
+            if i.op == "jmp" then some taken
+            else match cellPaths fuel r (i :: acc) h with
+              | none => none
+              | some fall => some (taken ++ fall)
+    else match insDelta i with
+      | none => none
+      | some d => cellPaths fuel r (i :: acc) (h + d)
+
+/-- effect of a multi-instruction line: every path through it has the same effect -/
+def multiDelta (is : List Ins) : Option H :=
+  match cellPaths (is.length + 1) is [] H.zero with
+  | some ((_, d) :: rest) => if rest.all (fun p => p.2 == d) then some d else none
+  | _ => none
+
+def renderPath (p : List Ins × H) : String :=
+  "[" ++ "; ".intercalate (p.1.map Ins.render) ++ s!"] = (rsp {p.2.rsp}, x87 {p.2.x87})"
+
+/-- why a multi-instruction line has no effect value: two paths through it that disagree -/
+def multiWhy (is : List Ins) : String :=
+  match cellPaths (is.length + 1) is [] H.zero with
+  | none => "an instruction without a known effect, or a jump that does not go forward to a local label"
+  | some [] => "no path"
+  | some (p :: rest) =>
+    match rest.find? (fun q => q.2 != p.2) with
+    | some q => "paths through the line disagree: " ++ renderPath p ++ "  versus  " ++ renderPath q
+    | none => "balanced"
 
 def lineDelta : Line → Option H
   | .ins i => insDelta i
   | .insA i note =>
     if i.op == "call" && note == "ret:f80" then some ⟨0, 1⟩ else none
-  | .multi is => multiDelta is false
-  | .multiT _ is => multiDelta is false
+  | .multi is => multiDelta is
+  | .multiT _ is => multiDelta is
   | .label _ => none
   | .raw _ => some H.zero
 
@@ -170,6 +224,7 @@ def classify (l : Line) : List Step :=
     match l with
     | .ins i => [classifyIns i]
     | .label n => [.label n]
+    | .multi is | .multiT _ is => [.bad s!"cast_table line `{l.render}`: {multiWhy is}"]
     | _ => [.bad s!"no effect known for: {l.render}"]
 
 /-- numeric local labels (`1:` … `9:`): a reference `1f` means the next definition of `1`, `1b` the
